@@ -259,6 +259,36 @@ def expand_function(fn: ast.FunctionDef, resolve: t.Callable[[ast.Call], t.Optio
             return self.generic_visit(node)
     if any(nm not in bad and uses[nm] for nm in cands):
         Rewrite().visit(fn)
+        # a flag assigned once from a rewritten comparison (`accepted = layout in formats`) and only ever tested: its (now compound)
+        # value is substituted into the tests, so that the flow graph sees the connectives
+        parent2: t.Dict[int, ast.AST] = {}
+        for p in ast.walk(fn):
+            for ch in ast.iter_child_nodes(p):
+                parent2[id(ch)] = p
+        for st in list(ast.walk(fn)):
+            if not (isinstance(st, ast.Assign) and len(st.targets) == 1 and isinstance(st.targets[0], ast.Name)
+                    and isinstance(st.value, ast.BoolOp)):
+                continue
+            flag = st.targets[0].id
+            if flag in params or len(assigned.get(flag, [])) != 1:
+                continue
+            if any(isinstance(x, ast.Name) and x.id not in params and len(assigned.get(x.id, [])) > 0 for x in ast.walk(st.value)):
+                continue
+            loads = [x for x in ast.walk(fn) if isinstance(x, ast.Name) and isinstance(x.ctx, ast.Load) and x.id == flag]
+
+            def _tested(x: ast.AST) -> bool:
+                par = parent2.get(id(x))
+                while isinstance(par, (ast.BoolOp, ast.UnaryOp)) and (not isinstance(par, ast.UnaryOp) or isinstance(par.op, ast.Not)):
+                    x, par = par, parent2.get(id(par))
+                return isinstance(par, (ast.If, ast.While, ast.IfExp)) and par.test is x
+            if not loads or not all(_tested(x) for x in loads):
+                continue
+            _Subst({flag: st.value}).visit(fn)
+            body_owner = parent2.get(id(st))
+            for fld in ('body', 'orelse', 'finalbody'):
+                seq = getattr(body_owner, fld, None)
+                if isinstance(seq, list) and st in seq:
+                    seq[seq.index(st)] = ast.copy_location(ast.Pass(), st)
         ast.fix_missing_locations(fn)
         for x in ast.walk(fn):
             if not hasattr(x, 'lineno') and isinstance(x, (ast.expr, ast.stmt)):
@@ -807,6 +837,7 @@ def spread_kwargs_dicts(fn: ast.FunctionDef) -> int:
         # later fills in the same block
         blk = block_of(st)
         extra_stmts: t.List[ast.stmt] = []
+        first_use: t.Optional[ast.stmt] = None
         ok = blk is not None
         if blk is not None:
             for s2 in blk[blk.index(t.cast(ast.stmt, st)) + 1:]:
@@ -833,8 +864,36 @@ def spread_kwargs_dicts(fn: ast.FunctionDef) -> int:
                             items = [(k, v) for (k, v) in items if k != key] + [(key, attr)]
                         extra_stmts.append(s2)
                         continue
+                if isinstance(s2, ast.If) and len(s2.body) == 1 and len(s2.orelse) == 1:
+                    # `if c: opts['k'] = a` / `else: opts['k'] = b`: the same key either way
+                    arms = []
+                    for arm in (s2.body[0], s2.orelse[0]):
+                        if isinstance(arm, ast.Assign) and len(arm.targets) == 1 and isinstance(arm.targets[0], ast.Subscript) \
+                                and isinstance(arm.targets[0].value, ast.Name) and arm.targets[0].value.id == nm \
+                                and isinstance(arm.targets[0].slice, ast.Constant) and isinstance(arm.targets[0].slice.value, str) \
+                                and not any(isinstance(x, ast.Name) and x.id == nm for x in ast.walk(arm.value)):
+                            arms.append((arm.targets[0].slice.value, arm.value))
+                    if len(arms) == 2 and arms[0][0] == arms[1][0] and not any(isinstance(x, ast.Name) and x.id == nm for x in ast.walk(s2.test)):
+                        key = arms[0][0]
+                        ife = ast.IfExp(test=_clone(s2.test), body=_clone(arms[0][1]), orelse=_clone(arms[1][1]))
+                        items = [(k, v) for (k, v) in items if k != key] + [(key, ife)]
+                        extra_stmts.append(s2)
+                        continue
+                first_use = s2
                 break       # first other use (the `**nm` call, or something the rewrite does not model)
-        if not ok or not items or not all(pure(v) for _k, v in items):
+        # when nothing but fills stands between the display and the statement that spreads it, the values are evaluated where they
+        # were (in order, just before the call): any expression may be moved into the call
+        adjacent = False
+        if ok and blk is not None and first_use is not None:
+            between = blk[blk.index(t.cast(ast.stmt, st)) + 1: blk.index(first_use)]
+            spreads = [k for c_ in ast.walk(first_use) if isinstance(c_, ast.Call) for k in c_.keywords
+                       if k.arg is None and isinstance(k.value, ast.Name) and k.value.id == nm]
+            adjacent = all(b in extra_stmts for b in between) and len(spreads) == 1 and not isinstance(first_use, (ast.For, ast.While, ast.If, ast.Try, ast.With))
+        if not ok or not items or not (adjacent or all(pure(v) for _k, v in items)):
+            continue
+        if adjacent:
+            cands[nm] = items
+            drop[nm] = extra_stmts
             continue
         # names used in the values must not be rebound after the dictionary statement
         line0 = getattr(st, 'lineno', 0)
@@ -884,10 +943,72 @@ def spread_kwargs_dicts(fn: ast.FunctionDef) -> int:
                 c.keywords = new_kw
     if n:
         for nm in cands:
-            for s2 in drop.get(nm, []):
+            for s2 in [*drop.get(nm, []), *[s_ for s_ in stores.get(nm, []) if isinstance(s_, ast.stmt)]]:
                 blk = block_of(s2)
                 if blk is not None and s2 in blk:
                     blk[blk.index(s2)] = ast.copy_location(ast.Pass(), s2)
+    return n
+
+
+# ---------------------------------------------------------------------------- private one-expression helpers
+
+
+def inline_expression_helpers(fn: ast.FunctionDef, lookup: t.Callable[[ast.Call], t.Optional[ast.FunctionDef]]) -> int:
+    """``conv = _custom_converter(ty, custom)`` with ``def _custom_converter(ty, custom): return make_converter(ty, H.make(custom))``
+    ->  ``conv = make_converter(ty, H.make(custom))``.
+
+    Only for an undecorated private module-level helper whose body is (a docstring and) one ``return`` of an expression, called with
+    names / attributes / constants for every parameter (so that an argument may be written more than once), without ``*`` / ``**``."""
+    n = 0
+
+    class Inline(ast.NodeTransformer):
+        def visit_Call(self, node: ast.Call) -> ast.AST:
+            nonlocal n
+            self.generic_visit(node)
+            if not (isinstance(node.func, ast.Name) and node.func.id.startswith('_') and not node.func.id.startswith('__')):
+                return node
+            g = lookup(node)
+            if g is None or g is fn or g.decorator_list or g.args.vararg or g.args.kwarg or g.args.posonlyargs:
+                return node
+            body = [s_ for s_ in g.body if not (isinstance(s_, ast.Expr) and isinstance(s_.value, ast.Constant))]
+            if len(body) != 1 or not isinstance(body[0], ast.Return) or body[0].value is None:
+                return node
+            if any(isinstance(a, ast.Starred) for a in node.args) or any(k.arg is None for k in node.keywords):
+                return node
+            if not all(_simple_arg(a) for a in [*node.args, *[k.value for k in node.keywords]]):
+                return node
+            names = [a.arg for a in g.args.args + g.args.kwonlyargs]
+            if len(node.args) > len(g.args.args):
+                return node
+            mapping: t.Dict[str, ast.expr] = dict(zip([a.arg for a in g.args.args], node.args))
+            for k in node.keywords:
+                if k.arg not in names or k.arg in mapping:
+                    return node
+                mapping[t.cast(str, k.arg)] = k.value
+            defaults = dict(zip([a.arg for a in g.args.args][len(g.args.args) - len(g.args.defaults):], g.args.defaults))
+            defaults.update({a.arg: d for a, d in zip(g.args.kwonlyargs, g.args.kw_defaults) if d is not None})
+            for nm in names:
+                if nm not in mapping:
+                    d = defaults.get(nm)
+                    if d is None or not isinstance(d, ast.Constant):
+                        return node
+                    mapping[nm] = d
+            expr = body[0].value
+            for x in ast.walk(expr):
+                if isinstance(x, (ast.Lambda, ast.NamedExpr, ast.Yield, ast.YieldFrom, ast.Await)):
+                    return node
+                if isinstance(x, ast.comprehension) and any(isinstance(y, ast.Name) and y.id in mapping for y in ast.walk(x.target)):
+                    return node
+                if isinstance(x, ast.Call) and isinstance(x.func, ast.Name) and x.func.id == g.name:
+                    return node
+            new = _Subst(mapping).visit(_clone(expr))
+            for y in ast.walk(new):
+                ast.copy_location(y, node)
+            n += 1
+            return new
+    Inline().visit(fn)
+    if n:
+        ast.fix_missing_locations(fn)
     return n
 
 
